@@ -79,6 +79,20 @@ def families(tier):
         for o in (['A', 'B', 'C'], ['C', 'B', 'A']):
             out.append(dict(prop='C02', family='c02.fifo.leftover_of_interrupted_event', id=f'c02/leftover-{k2shape}-y{int(y_first)}-o{"".join(o)}', cfg=dict(cfg, window=1.2, max_targets=3), params=dict(topo='leftover', pshape='tmo'),
                             scn=dict(buses={'A': {}, 'B': dict(parallel=True), 'C': {}}, order=o, handlers=hs, main=main, actors=[], forwards=[], settle=3.0)))
+    # a handler is cut off by its time-out (0.3 s) and needs 0.5 s to clean up after the cancellation (an async finally); the next event of the same serial bus is
+    # already queued: it starts when that handler has really ended, not 0.1 s after it was told to
+    for nb, second in itertools.product((1, 2), (False, True)):
+        names = ['A', 'B'][:nb]
+        hs = [dict(bus='A', pat='P', name='hp', prog=[('guarded_pause', 0.5), ('ret', 1)]), dict(bus='A', pat='X', name='hxA', prog=[('pause',), ('ret', 0)]),
+              dict(bus='A', pat='*', name='probeA', prog=[('ret', 0)], kind='sync')]
+        if second:
+            hs.append(dict(bus='A', pat='P', name='hp2', prog=[('ret', 2)]))
+        if nb == 2:
+            hs += [dict(bus='B', pat='X', name='hxB', prog=[('pause',), ('ret', 0)]), dict(bus='B', pat='*', name='probeB', prog=[('ret', 0)], kind='sync')]
+        main = [('disp', 'A', 'P', 'ff', {'timeout': 0.3}), ('disp', 'A', 'X', 'ff')] + ([('disp', 'B', 'X2', 'ff')] if nb == 2 else []) + [('sleep', 1.2), ('disp', 'A', 'X3', 'ff')]
+        for o in ([names] if nb == 1 else [names, names[::-1]]):
+            out.append(dict(prop='C02', family='c02.fifo.slow_cleanup_after_timeout', id=f'c02/slowclean-n{nb}-s{int(second)}-o{"".join(o)}', cfg=dict(cfg, window=1.2, max_targets=3), params=dict(topo='slowclean', pshape='tmo'),
+                            scn=dict(buses={b: {} for b in names}, order=o, handlers=hs, main=main, actors=[], forwards=[], settle=3.0)))
     # the grammar-generated corpus shared by the bus properties (vsched/gen.py), judged by this property's oracle
     from .. import gen
     out += gen.family('C02', tier, params=dict(topo='gen', pshape='gen'), timeouts=(None,))
